@@ -203,7 +203,7 @@ func (m *monitor) hook(_ *sim.View, ev *sim.Event) {
 				m.add("took-over-controlled-object", fmt.Sprintf("%s replaced controller %s of %s by %s in one write", cur.RevName, cb, ev.Key, ca))
 			}
 		}
-		if cur.Op != "release" {
+		if cur.Op == "establish" || (cur.Op == "reconcile" && cur.Control) {
 			// O6: whatever Establish writes carries the package as a non-controller owner
 			if o, ok := findOwner(ev.After, cur.PkgUID); !ok {
 				m.add("established-object-without-package-owner:"+role, fmt.Sprintf("%s Establish of %s wrote %s without the package as owner (owners after: %s)", role, cur.RevName, ev.Key, ownerSummary(ev.After)))
@@ -235,10 +235,13 @@ type exec struct {
 	revs        map[string]*revInfo
 	rejected    map[sim.Key]bool
 
+	// reconcile runs one reconcile of a revision: the emulation of the reconciler's use of the
+	// establisher, or the real revision.Reconciler
+	reconcile func(revName string) error
+	real      *realRec
+
 	ops   []string
 	stats map[string]int64
-	// plannedFault is the outcome planned for the next op (evidence only)
-	plannedFault sim.Outcome
 }
 
 func (x *exec) count(k string, n int64) { x.stats[k] += n }
@@ -275,6 +278,7 @@ func (x *exec) attach() {
 		}
 	}
 	x.w.AddHook(x.mon.hook)
+	x.reconcile = x.reconcileEmu
 }
 
 func newExec(c *kit.Ctx, caseName string, desc any, kindName string, seed uint64, conc int) *exec {
@@ -560,18 +564,7 @@ func (x *exec) establish(revName string, control bool) opResult {
 	}
 	x.report(r.log)
 
-	if len(r.refused) > 0 {
-		cls := r.refused[0]
-		x.count("refused_"+role+"_"+cls, 1)
-		// O1: all-or-nothing
-		if len(real) > 0 {
-			x.c.Violate("refused-establish-wrote:"+cls, x.caseName,
-				fmt.Sprintf("%s Establish of %s cannot succeed (%v; returned: %v) yet it issued %d non-dry-run write(s): %v", role, revName, r.refused, r.err, len(real), real), x.witness(r.log))
-		}
-		if r.err == nil {
-			x.c.Violate("untakeable-object-ignored:"+cls, x.caseName,
-				fmt.Sprintf("%s Establish of %s returned success although an object cannot be taken over (%v)", role, revName, r.refused), x.witness(r.log))
-		}
+	if x.judgeRefusal(revName, role, r.refused, real, r.err, r.log) {
 		return r
 	}
 	if r.err != nil {
@@ -586,13 +579,42 @@ func (x *exec) establish(revName string, control bool) opResult {
 		// not judged: the property speaks of taking over; an inactive revision only adds itself as owner
 		x.count("inactive_owner_added_to_foreign_controlled", int64(foreignCtl))
 	}
-	// post-state of a successful Establish
+	x.checkPostEstablish(ri, control, r.log)
+	return r
+}
+
+// judgeRefusal is O1: when an object cannot be taken over, nothing is written (and the call
+// does not report success). It reports whether a refusal was predicted.
+func (x *exec) judgeRefusal(revName, role string, refused, real []string, err error, log []sim.Event) bool {
+	if len(refused) == 0 {
+		return false
+	}
+	cls := refused[0]
+	x.count("refused_"+role+"_"+cls, 1)
+	if len(real) > 0 {
+		x.c.Violate("refused-establish-wrote:"+cls, x.caseName,
+			fmt.Sprintf("%s Establish of %s cannot succeed (%v; returned: %v) yet it issued %d non-dry-run write(s): %v", role, revName, refused, err, len(real), real), x.witness(log))
+	}
+	if err == nil {
+		x.c.Violate("untakeable-object-ignored:"+cls, x.caseName,
+			fmt.Sprintf("%s Establish of %s returned success although an object cannot be taken over (%v)", role, revName, refused), x.witness(log))
+	}
+	return true
+}
+
+// checkPostEstablish judges the store after a successful Establish (O3, O6).
+func (x *exec) checkPostEstablish(ri *revInfo, control bool, log []sim.Event) {
+	role := "inactive"
+	if control {
+		role = "active"
+	}
+	revName := ri.Name
 	for _, s := range ri.Specs {
 		k := s.key()
 		o := x.w.GetObj(k)
 		if o == nil {
 			if control {
-				x.c.Violate("active-establish-left-object-missing:"+s.Kind, x.caseName, fmt.Sprintf("Establish(control=true) of %s succeeded but %s does not exist", revName, k), x.witness(r.log))
+				x.c.Violate("active-establish-left-object-missing:"+s.Kind, x.caseName, fmt.Sprintf("Establish(control=true) of %s succeeded but %s does not exist", revName, k), x.witness(log))
 			} else {
 				x.count("inactive_skipped_absent", 1)
 			}
@@ -600,19 +622,18 @@ func (x *exec) establish(revName string, control bool) opResult {
 		}
 		if po, ok := findOwner(o, x.pkgUID); !ok || po.Controller {
 			x.c.Violate("established-object-without-package-owner:"+role, x.caseName,
-				fmt.Sprintf("after a successful %s Establish of %s, %s does not have the package as non-controller owner (owners: %s)", role, revName, k, ownerSummary(o)), x.witness(r.log))
+				fmt.Sprintf("after a successful %s Establish of %s, %s does not have the package as non-controller owner (owners: %s)", role, revName, k, ownerSummary(o)), x.witness(log))
 		}
 		cu := controllerUID(o)
 		if control && cu != ri.UID {
 			x.c.Violate("active-establish-did-not-take-control:"+s.Kind, x.caseName,
-				fmt.Sprintf("Establish(control=true) of %s succeeded but the controller of %s is %q (owners: %s)", revName, k, cu, ownerSummary(o)), x.witness(r.log))
+				fmt.Sprintf("Establish(control=true) of %s succeeded but the controller of %s is %q (owners: %s)", revName, k, cu, ownerSummary(o)), x.witness(log))
 		}
 		if !control && cu == ri.UID {
 			x.c.Violate("inactive-revision-is-controller:"+s.Kind, x.caseName,
-				fmt.Sprintf("after Establish(control=false) %s is the controller of %s", revName, k), x.witness(r.log))
+				fmt.Sprintf("after Establish(control=false) %s is the controller of %s", revName, k), x.witness(log))
 		}
 	}
-	return r
 }
 
 func refKey(r xpv1.TypedReference) sim.Key {
@@ -653,8 +674,14 @@ func (x *exec) release(revName string) opResult {
 		}
 		return r
 	}
-	// O4: control given up, ownership kept, for everything the revision had established
-	for _, ref := range pr.GetObjects() {
+	x.checkPostRelease(ri, pr.GetObjects(), r.log)
+	return r
+}
+
+// checkPostRelease is O4: control given up, ownership kept, for everything the revision had
+// established.
+func (x *exec) checkPostRelease(ri *revInfo, refs []xpv1.TypedReference, log []sim.Event) {
+	for _, ref := range refs {
 		k := refKey(ref)
 		o := x.w.GetObj(k)
 		if o == nil {
@@ -664,12 +691,11 @@ func (x *exec) release(revName string) opResult {
 		ow, ok := findOwner(o, ri.UID)
 		switch {
 		case !ok:
-			x.c.Violate("released-revision-not-owner:"+k.Kind, x.caseName, fmt.Sprintf("after ReleaseObjects(%s) the revision is no longer an owner of %s (owners: %s)", revName, k, ownerSummary(o)), x.witness(r.log))
+			x.c.Violate("released-revision-not-owner:"+k.Kind, x.caseName, fmt.Sprintf("after ReleaseObjects(%s) the revision is no longer an owner of %s (owners: %s)", ri.Name, k, ownerSummary(o)), x.witness(log))
 		case ow.Controller:
-			x.c.Violate("released-revision-still-controller:"+k.Kind, x.caseName, fmt.Sprintf("after ReleaseObjects(%s) the revision still controls %s", revName, k), x.witness(r.log))
+			x.c.Violate("released-revision-still-controller:"+k.Kind, x.caseName, fmt.Sprintf("after ReleaseObjects(%s) the revision still controls %s", ri.Name, k), x.witness(log))
 		}
 	}
-	return r
 }
 
 // reconcileEmu is what one reconcile of the revision controller does with the establisher
